@@ -27,7 +27,23 @@ use vcore::targets::{self, Outcome, same_value_or_both_err, show};
 use vcore::val::Val;
 use vcore::ydoc::{Node, RenderOpts};
 
-const TARGETS: [&str; 5] = ["Val", "MapValVal", "MapStrVal", "Rec", "json"];
+/// The last four *ignore* (parts of) the document: `IgnoredAny` at the root, as map values, as
+/// sequence items, and behind the undeclared fields of a derived struct that declares only `k2`
+/// (`Rec` also ignores what it does not declare). The policy holds for every target, so a repeated key
+/// inside an ignored value must still fail under `Error` and be read through under First/LastWins.
+const TARGETS: [&str; 9] = ["Val", "MapValVal", "MapStrVal", "Rec", "json", "Ignored", "MapStrIgnored", "VecIgnored", "OnlyK2"];
+const IGNORING: [&str; 5] = ["Rec", "Ignored", "MapStrIgnored", "VecIgnored", "OnlyK2"];
+
+#[derive(Debug, serde::Deserialize)]
+#[allow(dead_code)]
+struct OnlyK2 {
+    #[serde(default)]
+    k2: Option<Val>,
+}
+
+fn local<T: serde::de::DeserializeOwned + std::fmt::Debug>(doc: &str, policy: usize) -> Result<Outcome, String> {
+    vcore::obs::catch(|| serde_saphyr::from_str_with_options::<T>(doc, opts(policy)).map(|v| format!("{v:?}")))
+}
 
 fn opts(policy: usize) -> serde_saphyr::Options {
     let mut o = vcore::errs::unlimited_options();
@@ -43,6 +59,12 @@ fn opts(policy: usize) -> serde_saphyr::Options {
 }
 
 fn run_target(name: &str, doc: &str, policy: usize) -> Result<Outcome, String> {
+    match name {
+        "MapStrIgnored" => return local::<std::collections::BTreeMap<String, serde::de::IgnoredAny>>(doc, policy),
+        "VecIgnored" => return local::<Vec<serde::de::IgnoredAny>>(doc, policy),
+        "OnlyK2" => return local::<OnlyK2>(doc, policy),
+        _ => {}
+    }
     let t = targets::by_name(name).unwrap();
     vcore::obs::catch(|| (t.from_str)(doc, opts(policy)))
 }
@@ -322,6 +344,7 @@ struct Analysis {
     has_merge: bool,
     complex_key: bool,
     root_is_map: bool,
+    root_is_seq: bool,
     root_keys_plain_scalars: bool,
     custom_tag_lookalike: bool,
     /// two container keys of one mapping are equal once the tags of their scalar leaves are ignored
@@ -441,6 +464,7 @@ fn analyse(raw: Option<&RNode>, usex: &RNode, defx: &RNode, c: &Ctx, an: &mut An
 
 fn analyse_doc(raw: &RNode, usex: &RNode, defx: &RNode) -> Analysis {
     let mut an = Analysis::default();
+    an.root_is_seq = matches!(usex, RNode::Seq { .. });
     if let RNode::Map { entries, .. } = usex {
         an.root_is_map = true;
         an.root_keys_plain_scalars = entries.iter().all(|(k, _)| matches!(k, RNode::Scalar { tag: None, .. }));
@@ -730,8 +754,10 @@ fn check_doc(run: &Run, doc: &str, flow: bool, class: &str) {
                 "Val" => true,
                 "MapValVal" => an.root_is_map,
                 "MapStrVal" => an.root_is_map && an.root_keys_plain_scalars,
-                "Rec" => an.root_is_map && an.root_keys_plain_scalars && first.depth == 0,
+                "Rec" | "OnlyK2" | "MapStrIgnored" => an.root_is_map && an.root_keys_plain_scalars,
                 "json" => an.root_is_map && !an.complex_key,
+                "Ignored" => true,
+                "VecIgnored" => an.root_is_seq,
                 _ => false,
             };
             if !eligible {
@@ -768,6 +794,9 @@ fn check_doc(run: &Run, doc: &str, flow: bool, class: &str) {
                     let got = vcore::errs::line_col(&e);
                     if got == Some(expect) {
                         acc::count("error_policy_located_held", 1);
+                        if IGNORING.contains(&tn) && first.depth > 0 {
+                            acc::count("error_policy_located_held_below_root_in_ignoring_target", 1);
+                        }
                         if nontrivial {
                             run.nontrivial(h(&format!("E/{tn}")));
                         }
@@ -790,6 +819,38 @@ fn check_doc(run: &Run, doc: &str, flow: bool, class: &str) {
                                 "[{tn}] DuplicateMappingKey reported at {got:?}; the repeated key (second occurrence) starts at {expect:?}; first occurrence at {fo:?}; key written as alias: {}",
                                 first.via_alias
                             ),
+                        );
+                    }
+                }
+            }
+        }
+    }
+
+    // ---- First/LastWins into targets that ignore: nothing is rejected, so they must succeed
+    for tn in ["Ignored", "MapStrIgnored", "VecIgnored"] {
+        let eligible = match tn {
+            "Ignored" => true,
+            "MapStrIgnored" => an.root_is_map && an.root_keys_plain_scalars,
+            _ => an.root_is_seq,
+        };
+        if !eligible {
+            continue;
+        }
+        for p in [1usize, 2] {
+            run.eval();
+            let cj = || case(json!({"policy": if p == 1 { "FirstWins" } else { "LastWins" }, "target": tn}));
+            match run_target(tn, doc, p) {
+                Err(pn) => report(run, &format!("C04:panic:{}", vcore::obs::panic_site(&pn)), cj(), pn),
+                Ok(Ok(_)) => acc::count("ignoring_target_read_through_held", 1),
+                Ok(Err(e)) => {
+                    // only a verdict when the untyped target reads the document under this policy
+                    run.eval();
+                    if matches!(run_target("Val", doc, p), Ok(Ok(_))) {
+                        report(
+                            run,
+                            &format!("C04:{}:ignoring-target-failed:{}", if p == 1 { "first-wins" } else { "last-wins" }, vcore::errs::kind(&e)),
+                            cj(),
+                            format!("[{tn}] {}", clip(&e.to_string())),
                         );
                     }
                 }
